@@ -582,6 +582,8 @@ func runC08(args []string) {
 	// (2) AST fact + cwd watcher
 	c08AstFacts()
 	c08CwdWatcher()
+	// (4) the saver's shared decompression model: access recording of a real save
+	c08SaverProbe()
 	// (3) real scenarios in child processes
 	p := newPrng(0xC08)
 	t0s := []float64{1, 10, 50.5, 1000, 0.1, 123456.789}
